@@ -244,7 +244,9 @@ class SoftwareManager:
         :param session: The transport session the payload originates from.
         """
         if payload.__class__.__name__ == "PortScanPayload":
-            self.software.get("nmap").receive(payload=payload, session_id=session_id)
+            nmap = self.software.get("nmap")
+            if nmap:  # a port-scan probe addressed to a node without nmap (e.g. uninstalled) is simply not answered
+                nmap.receive(payload=payload, session_id=session_id)
             return
         main_receiver = self.port_protocol_mapping.get((port, protocol), None)
         if main_receiver:
